@@ -250,7 +250,7 @@ Init ==
   /\ l = 1 /\ db = EmptyDB /\ pdb = EmptyDB /\ exp = EmptyDB /\ now = 0
   /\ reqs = <<>> /\ cand = <<>> /\ snaps = <<>> /\ faulted = {} /\ sends = <<>>
   /\ lapsed = {} /\ plapsed = {} /\ claims = {} /\ seen = <<>> /\ cfg = <<>> /\ chk = NoChk
-  /\ path = <<EmptyDB>> /\ cyc = <<>> /\ q0 = [t |-> -1, db |-> EmptyDB] /\ rerr = {} /\ idc = <<>> /\ trav = <<>>
+  /\ path = <<EmptyDB>> /\ cyc = <<>> /\ q0 = [t |-> -1, db |-> EmptyDB, short |-> FALSE] /\ rerr = {} /\ idc = <<>> /\ trav = <<>>
 
 Consume == l <= Len(TraceLog) /\ l' = l + 1
 
@@ -259,7 +259,7 @@ EReset ==
   /\ db' = EmptyDB /\ pdb' = EmptyDB /\ exp' = EmptyDB /\ now' = Ev.t
   /\ reqs' = <<>> /\ cand' = <<>> /\ snaps' = <<>> /\ faulted' = {} /\ sends' = <<>>
   /\ lapsed' = {} /\ plapsed' = {} /\ claims' = {} /\ seen' = <<>> /\ cfg' = Ev.cfg /\ chk' = NoChk
-  /\ path' = <<EmptyDB>> /\ cyc' = <<>> /\ q0' = [t |-> -1, db |-> EmptyDB] /\ rerr' = {} /\ idc' = <<>> /\ trav' = <<>>
+  /\ path' = <<EmptyDB>> /\ cyc' = <<>> /\ q0' = [t |-> -1, db |-> EmptyDB, short |-> FALSE] /\ rerr' = {} /\ idc' = <<>> /\ trav' = <<>>
 
 ESubmit ==
   /\ Consume /\ Ev.e = "submit"
@@ -440,7 +440,7 @@ ECursor ==
 \* background coroutines run (C11)
 EQuiesce ==
   /\ Consume /\ Ev.e = "quiesce"
-  /\ q0' = [t |-> Ev.t, db |-> db]
+  /\ q0' = [t |-> Ev.t, db |-> db, short |-> FALSE]
   /\ pdb' = db /\ chk' = NoChk /\ path' = <<db>>
   /\ UNCHANGED <<db, exp, now, reqs, cand, snaps, faulted, sends, lapsed, plapsed, claims, seen, cfg, cyc, rerr, idc, trav>>
 
@@ -458,8 +458,10 @@ ESelect ==
   /\ Consume /\ Ev.e = "select"
   \* (a cycle begins with its selection: two cycles started at the same instant carry the same name)
   /\ cyc' = Put(Put(cyc, "sel:" \o Ev.o, {<<Ev.tasks[i].id, Ev.tasks[i].counter>> : i \in DOMAIN Ev.tasks}), Ev.o, {})
+  \* (after the clients stopped: a cycle that took fewer tasks than its batch holds has taken every dispatchable root)
+  /\ q0' = IF q0.t >= 0 /\ Len(Ev.tasks) < cfg.taskBatchSize THEN [q0 EXCEPT !.short = TRUE] ELSE q0
   /\ pdb' = db /\ chk' = NoChk /\ path' = <<db>>
-  /\ UNCHANGED <<db, exp, now, reqs, cand, snaps, faulted, sends, lapsed, plapsed, claims, seen, cfg, q0, rerr, idc, trav>>
+  /\ UNCHANGED <<db, exp, now, reqs, cand, snaps, faulted, sends, lapsed, plapsed, claims, seen, cfg, rerr, idc, trav>>
 
 EOther ==
   /\ Consume /\ Ev.e \notin {"reset", "submit", "tick", "commit", "respond", "send", "route", "crash",
@@ -720,7 +722,7 @@ HandedOffSince(r, t) == \E k \in DOMAIN sends : /\ sends[k].t >= t /\ sends[k].o
 Redispatched(t) ==
   {db.tasks[k1[1]].rootId : k1 \in {k \in DOMAIN sends : /\ sends[k].t >= t /\ sends[k].outcome = "ok" /\ Has(db.tasks, k[1])
                                                           /\ \E k2 \in DOMAIN sends : k2[1] = k[1] /\ k2[2] # k[2] /\ sends[k2].t >= t /\ sends[k2].outcome = "ok"}}
-IsF18(r) == Cardinality(Redispatched(q0.t) \ {r}) >= cfg.taskBatchSize
+IsF18(r) == ~ q0.short /\ Cardinality(Redispatched(q0.t) \ {r}) >= cfg.taskBatchSize     \* every batch was full of other roots
 C11_ConvergedAtEnd ==
   (Last.e = "end" /\ q0.t >= 0) =>
      /\ ConvergedButKnown(db, q0.t)
